@@ -487,22 +487,40 @@ func genLongRun(r *rand.Rand) ([]op, []string) {
 func main() {
 	o := cq.ParseFlags()
 	r := o.Rand()
-	set := &cq.Set{
-		Name: "c05rec", Import: "IV.Check.C05Check", CaseType: "c05_case",
-		Checks: []string{"rec_mismatches", "rec_spec_failures"},
+	// several sets only to get more (smaller) shards evaluated in parallel; all use the same checkers
+	mk := func(name string) *cq.Set {
+		return &cq.Set{
+			Name: name, Import: "IV.Check.C05Check", CaseType: "c05_case",
+			Checks: []string{"rec_mismatches", "rec_spec_failures"},
+		}
 	}
+	sets := []*cq.Set{mk("c05bnd")}
+	for i := 0; i < 8; i++ {
+		sets = append(sets, mk(fmt.Sprintf("c05str%d", i)))
+	}
+	cur := 0
 	var fails []cq.ImplFailure
 	add := func(c *c05Case, buckets ...string) {
 		for _, f := range c.fails {
 			fails = append(fails, cq.ImplFailure{Kind: "marshal-or-panic", Detail: f, Case: c})
 		}
-		set.Cases = append(set.Cases, c.toCase(buckets...))
+		sets[cur].Cases = append(sets[cur].Cases, c.toCase(buckets...))
+	}
+	nonEmpty := func() []*cq.Set {
+		out := []*cq.Set{}
+		for _, s := range sets {
+			if len(s.Cases) > 0 {
+				out = append(out, s)
+			}
+		}
+
+		return out
 	}
 	if o.Replay != "" {
 		var c c05Case
 		cq.LoadReplay(o.Replay, &c)
 		add(run(c.Sender, c.Ops), "replay")
-		cq.Write(o, "replay", []*cq.Set{set}, nil, fails)
+		cq.Write(o, "replay", nonEmpty(), nil, fails)
 
 		return
 	}
@@ -518,6 +536,7 @@ func main() {
 	}
 	ns := o.Scale(520, 150000)
 	for i := 0; i < ns; i++ {
+		cur = 1 + i%8
 		ops, bs := genStructured(r)
 		add(run(uint32(r.Intn(1<<16)), ops), bs...) //nolint:gosec
 	}
@@ -527,5 +546,5 @@ func main() {
 		add(run(4242, ops), bs...)
 	}
 	cq.Write(o, "history of Record/Build operations on twcc.Recorder, distinct by content; non-trivial = at least 2 records and at least one feedback packet produced",
-		[]*cq.Set{set}, nil, fails)
+		nonEmpty(), nil, fails)
 }
